@@ -53,7 +53,7 @@ struct Runner {
 
     struct SubRec {
         bool live = false;
-        Subscription<T &> handle;
+        decltype(std::declval<Obs &>().subscribe(std::declval<void (*)(const T &)>())) handle;
         T lastSeen{};
         int callsThisOp = 0;
         T seenThisOp{};
@@ -117,7 +117,7 @@ struct Runner {
             if (expectNotify) {
                 if (s.callsThisOp != 1) return fail(s.callsThisOp ? "notified-twice" : "missing-notification", site, std::string(site) + " changed the value to " + show(model) + " but subscriber " + std::to_string(i) + " was called " + std::to_string(s.callsThisOp) + " time(s)");
                 if (!bitEqual(s.seenThisOp, model)) return fail("stale-value-notified", site, "subscriber " + std::to_string(i) + " was notified with " + show(s.seenThisOp) + ", the post-operation value is " + show(model));
-                if (!s.refOk) return fail("stale-value-notified", site, "subscriber did not receive a reference to the held value");
+                if (!s.refOk) return fail("stale-value-notified", site, "while subscriber " + std::to_string(i) + " was being notified, value() did not yet show the value it was notified with");
             } else if (s.callsThisOp) {
                 return fail("spurious-notification", site, std::string(site) + " left the value unchanged (" + show(model) + ") but subscriber " + std::to_string(i) + " was called with " + show(s.seenThisOp));
             }
@@ -140,13 +140,15 @@ struct Runner {
         SubRec &s = subs[i];
         beginOp("subscribe");
         log("sub" + std::to_string(i));
-        s.handle = obs->subscribe([this, i](T &v) {
+        // the statement promises the post-operation VALUE, not a reference to the held object: take it as const T&
+        s.handle = obs->subscribe([this, i](const T &v) {
             SubRec &me = subs[i];
             ++me.callsThisOp;
             ++C.calls;
             me.seenThisOp = v;
             me.lastSeen = v;
-            me.refOk = &v == &obs->value();
+            // what value() shows during the notification must already be the new value
+            if (!bitEqual(obs->value(), v)) me.refOk = false;
         });
         s.live = true;
         s.lastSeen = obs->value();
